@@ -74,8 +74,19 @@ func (ctx *Context) Apply(seq []glyph.Info) []glyph.Info {
 		ctx.lookup = ctx.ll[lookupIndex]
 		ctx.keep = newKeepFunc(ctx.ll[lookupIndex].Meta, ctx.gdef)
 
+		if isReverseChaining(ctx.lookup) {
+			// Reverse chaining substitutions process the glyph sequence
+			// from the end to the start.  They never change the length of
+			// the sequence and have no nested actions.
+			for pos := len(ctx.seq) - 1; pos >= 0; pos-- {
+				if ctx.keep.Keep(ctx.seq[pos].GID) {
+					ctx.applyAt(ctx.lookup.Subtables, pos, len(ctx.seq))
+				}
+			}
+			continue
+		}
+
 		pos := 0
-		// TODO(voss): GSUB 8.1 subtables are applied in reverse order.
 		for pos < len(ctx.seq) {
 			oldTodo := len(ctx.seq) - pos
 			pos = ctx.applyAtRecursively(pos)
@@ -91,6 +102,16 @@ func (ctx *Context) Apply(seq []glyph.Info) []glyph.Info {
 		seq = ctx.seq
 	}
 	return seq
+}
+
+// isReverseChaining returns true, if the lookup is a GSUB type 8 lookup.
+func isReverseChaining(lookup *LookupTable) bool {
+	for _, subtable := range lookup.Subtables {
+		if _, ok := subtable.(*Gsub8_1); !ok {
+			return false
+		}
+	}
+	return len(lookup.Subtables) > 0
 }
 
 // applyAtRecursively applies a single lookup to the given glyphs at position
